@@ -96,6 +96,15 @@ def run(tier, seed, replay=None):
         items = [(payload["schema"], [sc.NP if v == "__NotPassed__" else v for v in payload["values"]], "replay")]
     else:
         items = make_cases(rng, tier, res, stats)
+    if not replay:
+        # the reference semantics itself against jsonschema's Draft6Validator (a test of Spec6.v, see specref.py)
+        import specref
+        n_ref = 150 if tier == "quick" else 1500
+        ref = specref.compare([(s, vals) for s, vals, _ in items[:n_ref]], tag="c01ref")
+        stats["reference_semantics_vs_jsonschema"] = ref
+        if ref.get("unexplained"):
+            res.notes.append("Spec6.v differs from jsonschema outside the documented deviations on %d verdict(s): %s"
+                             % (ref["unexplained"], json.dumps(ref["unexplained_samples"][:2], default=repr)[:600]))
     cases, metas = [], []
     for s, vals, stream in items:
         if not replay and not no_value(s):
